@@ -1,3 +1,4 @@
 import MpfVerif.DriverLoop
-/-! Driver of the C03 model (stub until the model exists): answers bad-op to everything. -/
-def main : IO UInt32 := MpfVerif.runDriver (fun (s : Unit) _ => (s, "bad-op")) ()
+import MpfVerif.Model.Switch
+/-! Driver of the C03 model (switch controller, one model instance per switch). -/
+def main : IO UInt32 := MpfVerif.runDriver MpfVerif.Switch.driverStep []
